@@ -37,14 +37,14 @@ ASSUMPTIONS = [
 NSHARDS = {"quick": 16, "thorough": 16}
 BUDGET_S = {"quick": 20, "thorough": 540}
 FLOORS = {
-    "quick": {"evaluations": 40000, "distinct": 8000,
-              "counters": {"ok": 8000, "tse": 15000, "gen_cases": 1500, "mut_cases": 4000,
-                           "exh_cases": 30000, "ladder_cases": 300, "corner_cases": 2000,
-                           "raw_compile_ok": 8000, "lineno_checked": 15000}},
+    "quick": {"evaluations": 25000, "distinct": 8000,
+              "counters": {"ok": 8000, "tse": 8000, "gen_cases": 1000, "mut_cases": 4000,
+                           "exh_cases": 15000, "ladder_cases": 400, "corner_cases": 2500,
+                           "raw_compile_ok": 5000, "lineno_checked": 8000}},
     "thorough": {"evaluations": 900000, "distinct": 150000,
-                 "counters": {"ok": 150000, "tse": 400000, "gen_cases": 20000, "mut_cases": 60000,
-                              "exh_cases": 800000, "ladder_cases": 300, "corner_cases": 2000,
-                              "raw_compile_ok": 150000, "lineno_checked": 400000}},
+                 "counters": {"ok": 150000, "tse": 300000, "gen_cases": 20000, "mut_cases": 60000,
+                              "exh_cases": 800000, "ladder_cases": 400, "corner_cases": 2500,
+                              "raw_compile_ok": 150000, "lineno_checked": 300000}},
 }
 
 CASE_BUDGET = {"quick": 2.0, "thorough": 3.0}
@@ -169,6 +169,7 @@ def evaluate(ctx, cfg, src, family, budget, meta=None, raw=True):
                 out = out2
         if stuck == 3:
             out, key, detail = "viol", "hang", f"no result within {budget * 10:.0f}s in 3 solo re-runs"
+            ctx.extra["confirmed_hangs"] = ctx.extra.get("confirmed_hangs", 0) + 1
         elif out == "watchdog":
             out = "noise"
         else:
@@ -186,7 +187,15 @@ def evaluate(ctx, cfg, src, family, budget, meta=None, raw=True):
     elif out == "viol":
         ctx.violation(key, f"config={cfg} source={src[:300]!r}: {detail}",
                       {"cfg": cfg, "src": src, "family": family, "meta": meta})
+        if key == "hang":
+            # one confirmed hang costs > 30x the case budget; the verdict is
+            # already "violated", so stop this shard instead of timing out
+            raise ShardAbort()
     return out
+
+
+class ShardAbort(Exception):
+    pass
 
 
 def has_delim(dl, src):
@@ -195,6 +204,13 @@ def has_delim(dl, src):
 
 
 def run(ctx):
+    try:
+        _run(ctx)
+    except ShardAbort:
+        ctx.count("shard_aborted_after_confirmed_hang")
+
+
+def _run(ctx):
     import itertools
 
     import warnings
@@ -278,7 +294,7 @@ def run(ctx):
     prev = {}
     i = 0
     n_max = 300 if quick else 40000
-    while ctx.more(i, n_max, 120):
+    while ctx.more(i, n_max, 80):
         cfg = cfgs[i % len(cfgs)]
         dl = delims[cfg]
         g = G.TemplateGen(rng, dl, maxdepth=rng.choice([2, 3, 4, 5]),
@@ -316,4 +332,8 @@ def replay(ctx, case):
     src = case["src"]
     if isinstance(src, dict) and "$surrogate" in src:
         src = bytes.fromhex(src["$surrogate"]).decode("utf-8", "surrogatepass")
-    evaluate(ctx, case["cfg"], src, case.get("family"), CASE_BUDGET["thorough"], case.get("meta"))
+    try:
+        evaluate(ctx, case["cfg"], src, case.get("family"), CASE_BUDGET["thorough"],
+                 case.get("meta"))
+    except ShardAbort:
+        pass
